@@ -55,7 +55,7 @@ pub fn run_choices(which: usize, choices: &[u32]) -> (&'static str, Report) {
         "C05" => crate::checks::c05::random_case(&mut ch, 4),
         "C08" => {
             let kind = *ch.pick(&crate::faults::KINDS);
-            let context = *ch.pick(&crate::faults::CONTEXTS);
+            let context = *ch.pick(&crate::faults::CONTEXTS_C08);
             crate::checks::c08::judge(&crate::checks::c08::fault_program(&mut ch, kind, context, 3))
         }
         "C11" => {
